@@ -21,6 +21,7 @@ ASSUME Out("keyeddeep", KeyedDeep)
 ASSUME Out("confusable", Confusable)
 ASSUME Out("deepobj", DeepObj)
 ASSUME Out("keyed2k", Keyed2K)
+ASSUME Out("mergedocs", MergeDocs)
 ASSUME Out("objptr", ObjPtr)
 ASSUME Out("ptrdeep", PtrDeep)
 =============================================================================
